@@ -111,6 +111,17 @@ theorem generated_verify_loop :
 /-- why the operator matters: with a wrapping sum two differences of 0x80 cancel -/
 example : Hmac.binOp "+" (Hmac.binOp "+" 0 (Hmac.binOp "^" 0x12 0x92)) (Hmac.binOp "^" 0x34 0xb4) = 0 := by decide
 
+/-- (T) widths of the integers that carry a length, as declared in the source: the running
+    bit-length member `bit_len_` and the cast applied to `data.size()` are 64-bit (the model truncates
+    to these widths, `Model/Sha256.lean: wrapBits`; `sha_streaming` and `bit_len_exact` need a 64-bit
+    counter: a 32-bit one wraps at 2^29 bytes), and `buffer_size_` can hold 64. -/
+theorem generated_widths :
+    Gen.C08.bitLenBits = 64 ∧ Gen.C08.bitLenCastBits = 64 ∧ 64 < 2 ^ Gen.C08.bufferSizeBits :=
+  ⟨gen_bitLenBits, gen_bitLenCastBits, gen_bufferSizeBits⟩
+
+/-- why the width matters: 2^29 bytes are 2^32 bits, which a 32-bit counter records as 0 -/
+example : Sha256.wrapBits 32 (UInt64.ofNat (8 * 2 ^ 29)) = 0 ∧ Sha256.wrapBits 64 (UInt64.ofNat (8 * 2 ^ 29)) ≠ 0 := by decide
+
 /-- `primes64` is the list of the first sixty-four primes -/
 theorem first_64_primes : primes64 = primesBelow 312 ∧ primes64.length = 64 := primes64_are_the_first_64_primes
 
